@@ -1,0 +1,8 @@
+//go:build !verif
+
+// Package verifpoint marks schedule points for the verification harness
+// (/verif). Without the build tag "verif" every call is a no-op.
+package verifpoint
+
+// At does nothing in normal builds.
+func At(string) {}
